@@ -1438,3 +1438,93 @@ def r7_8_range_test_siblings(ck, P):
                     ck.ok(R, where)
             if n == 0:
                 ck.incomplete(R, '%s/%s: no pair of sibling range tests found' % (u.name, fn))
+
+
+def r7_9_word_skip_depends_on_run_state(ck, P):
+    """sibling agreement between the word loops of init_from_image: whether the per-bit loop (the only place where runs are opened and
+    closed) can be skipped for a word depends on the word AND on whether a run is open; a skip decided from the pixel data alone
+    leaves an open run open across a word of zeros."""
+    from .factors import _loops_of
+    R = ck.rule('C07-R9', 'in init_from_image every branch that decides from the bitmap word whether the per-bit loop runs for that word is taken under a test of the run state (in_box): a word of zeros may only be skipped when no run is open, a word of ones only when one is', floor=4)
+    for u in units(P):
+        L = _loops_of(u)
+        for fn, loops in sorted(L.items()):
+            if not fn.endswith('_init_from_image'):
+                continue
+            f = u.functions[fn]
+            ck.saw(f)
+            # run-state phis: header phis of a loop whose in-loop incoming leaves are constants
+            state = set(); bitloops = []
+            for lp in loops:
+                blocks = set(lp['blocks'])
+                for p in lp['phis']:
+                    ph = f.by_id[p['v']]
+                    if not ph.ty.startswith('i') or ph.ty == 'i1':
+                        continue
+                    leaves = []; seen = set(); work = [a for a, bb in zip(ph.a, ph.d['bb']) if bb in blocks]
+                    while work:
+                        o = work.pop(); x = f.v(o)
+                        if x is not None and x.op == 'phi' and x.bb.id in blocks:
+                            if x.i not in seen and x.i != ph.i:
+                                seen.add(x.i); work.extend(x.a)
+                        else:
+                            leaves.append(o)
+                    shifts = any(f.by_id[q['v']].ty.startswith('i') and any((f.v(a) is not None and f.v(a).op in ('shl', 'lshr')) for a, bb in zip(f.by_id[q['v']].a, f.by_id[q['v']].d['bb']) if bb in blocks) for q in lp['phis'])
+                    if leaves and all(o[0] == 'c' for o in leaves) and len({int(o[1]) for o in leaves}) >= 2 and shifts:
+                        state.add(ph.i)
+                        if lp not in bitloops:
+                            bitloops.append(lp)
+            # the family of the state phis (connected through phis)
+            grew = True
+            while grew:
+                grew = False
+                for x in f.insts():
+                    if x.op == 'phi' and x.i not in state and any(a[0] == 'v' and a[1] in state for a in x.a):
+                        state.add(x.i); grew = True
+                    elif x.op == 'phi' and x.i in state:
+                        for a in x.a:
+                            y = f.v(a)
+                            if y is not None and y.op == 'phi' and y.i not in state:
+                                state.add(y.i); grew = True
+            if not bitloops:
+                ck.incomplete(R, '%s/%s: no per-bit loop with a run-state flag found' % (u.name, fn)); continue
+
+            def slice_has(o, pred, d=0, seen=None):
+                seen = set() if seen is None else seen
+                x = f.v(o)
+                if x is None or x.i in seen or d > 12:
+                    return False
+                seen.add(x.i)
+                if pred(x):
+                    return True
+                if x.op in ('load', 'call', 'phi'):
+                    return False
+                return any(slice_has(a, pred, d + 1, seen) for a in x.a if a and a[0] == 'v')
+
+            def innermost_header(b):
+                ls = [lp for lp in loops if b in lp['blocks']]
+                return min(ls, key=lambda lp: len(lp['blocks']))['header'] if ls else None
+
+            for lp in bitloops:
+                H = lp['header']; n = 0; bad = None
+                for b in f.blocks:
+                    t = b.term
+                    if t.op != 'br' or not t.a or b.id in lp['blocks']:
+                        continue
+                    # within the current iteration of every enclosing loop
+                    avoid = {l2['header'] for l2 in loops if b.id in l2['blocks'] and l2['header'] != b.id}
+                    rs = [(s == H) or (H in f.reachable_blocks(s, avoid=avoid)) for s in t.d['succ']]
+                    if rs.count(True) != 1:
+                        continue
+                    data = slice_has(t.a[0], lambda x: x.op == 'load' and f.root(f.path(x.a[0]))[0] == 'phi')
+                    if not data:
+                        continue
+                    n += 1
+                    dep = slice_has(t.a[0], lambda x: x.i in state) or any(tt.a and (slice_has(tt.a[0], lambda x: x.op == 'phi' and x.i in state) or (f.v(tt.a[0]) is not None and any(a[0] == 'v' and a[1] in state for a in f.v(tt.a[0]).a))) for tt, s_ in f.control_conditions(b.id, transitive=False))
+                    if not dep:
+                        bad = t
+                where = '%s/%s: per-bit loop at block %d, %d word tests' % (u.name, fn, H, n)
+                if bad is not None:
+                    ck.violation(R, fn, 'word test at %s (%s)' % (bad.loc(), _w(u)), 'whether the per-bit loop at block %d runs is decided at %s from the bitmap word alone, without a test of the run state: a word that cannot open a run can still have to close the one that is open (and the reverse), so skipping it extends or drops a run' % (H, bad.loc()), bad.loc())
+                else:
+                    ck.ok(R, where)
